@@ -1,10 +1,166 @@
 package main
 
+// Bounded stand-ins and replays: Go tests kept under /verif/harness/<name>/ and injected into the real
+// package with `go test -overlay` (nothing is written into /repo). They run the real code.
+
+import (
+	"bufio"
+	"encoding/json"
+	"fmt"
+	"os"
+	"os/exec"
+	"path/filepath"
+	"strconv"
+	"strings"
+	"time"
+)
+
+type harnessMeta struct {
+	Pkg      string   `json:"pkg"`   // directory relative to the repo root
+	Test     string   `json:"test"`  // test function name
+	Files    []string `json:"files"` // files to overlay into Pkg
+	Bound    string   `json:"bound"` // human description (quick)
+	BoundT   string   `json:"bound_thorough"`
+	Timeout  int      `json:"timeout_s"`
+	TimeoutT int      `json:"timeout_thorough_s"`
+}
+
 // tryReplay: attempt to turn a solver model into a failing run of the real code.
+// (Models of quantified obligations are rarely produced; replays of known defect classes are kept as harnesses.)
 func tryReplay(o *runOpts, ob *Obl, rep map[string]any) (bool, string) {
 	return false, ""
 }
 
 func runBoundedHarness(o *runOpts, name string) boundedResult {
-	return boundedResult{Name: name, OK: true}
+	res := boundedResult{Name: name}
+	dir := filepath.Join(o.verif, "harness", name)
+	b, err := os.ReadFile(filepath.Join(dir, "meta.json"))
+	if err != nil {
+		res.Replay = writeHarnessReplay(o, name, "harness metadata missing: "+err.Error(), "")
+		return res
+	}
+	var m harnessMeta
+	if err := json.Unmarshal(b, &m); err != nil {
+		res.Replay = writeHarnessReplay(o, name, "bad harness metadata: "+err.Error(), "")
+		return res
+	}
+	res.Bound = m.Bound
+	timeout := m.Timeout
+	if o.tier == "thorough" {
+		if m.BoundT != "" {
+			res.Bound = m.BoundT
+		}
+		if m.TimeoutT > 0 {
+			timeout = m.TimeoutT
+		}
+	}
+	if timeout == 0 {
+		timeout = 120
+	}
+	scratch, err := os.MkdirTemp("", "gvc-harness-")
+	if err != nil {
+		res.Replay = writeHarnessReplay(o, name, err.Error(), "")
+		return res
+	}
+	defer os.RemoveAll(scratch)
+	ov := map[string]map[string]string{"Replace": {}}
+	for _, f := range m.Files {
+		ov["Replace"][filepath.Join(o.repo, m.Pkg, f)] = filepath.Join(dir, f)
+	}
+	ob, _ := json.Marshal(ov)
+	ovPath := filepath.Join(scratch, "overlay.json")
+	os.WriteFile(ovPath, ob, 0o644)
+	start := time.Now()
+	cmd := exec.Command("go", "test", "-overlay", ovPath, "-vet=off", "-v", "-count=1", fmt.Sprintf("-timeout=%ds", timeout), "-run", "^"+m.Test+"$", "./"+m.Pkg)
+	cmd.Dir = o.repo
+	cmd.Env = append(os.Environ(), "GOFLAGS=-mod=mod", "GOPROXY=off", "VERIF_TIER="+o.tier, "VERIF_SEED="+strconv.Itoa(seedFromEnv()), "GOCACHE="+goCacheDir())
+	out, runErr := cmd.CombinedOutput()
+	res.Seconds = time.Since(start).Seconds()
+	known := loadKnownFindings(o.verif)
+	var fails []string
+	sc := bufio.NewScanner(strings.NewReader(string(out)))
+	sc.Buffer(make([]byte, 1<<20), 1<<20)
+	sawCases := false
+	for sc.Scan() {
+		line := strings.TrimSpace(sc.Text())
+		if i := strings.Index(line, "VERIF-CASES:"); i >= 0 {
+			f := strings.Fields(line[i+len("VERIF-CASES:"):])
+			if len(f) > 0 {
+				n, _ := strconv.ParseInt(f[0], 10, 64)
+				res.Cases += n
+				sawCases = true
+			}
+			if strings.Contains(line, "exhaustive") {
+				res.Exhaustive = true
+			}
+		}
+		if i := strings.Index(line, "VERIF-FAIL:"); i >= 0 {
+			msg := strings.TrimSpace(line[i+len("VERIF-FAIL:"):])
+			class := msg
+			if j := strings.Index(msg, "class="); j >= 0 {
+				class = strings.Fields(msg[j+6:])[0]
+			}
+			obl := "harness:" + name + ":" + class
+			matched := false
+			for _, k := range known {
+				if k.Status != "fixed" && k.Obligation == obl && (k.Property == "" || k.Property == o.property) {
+					res.KnownLines = append(res.KnownLines, fmt.Sprintf("KNOWN-FINDING: property=%s %s — %s", o.property, obl, k.What))
+					matched = true
+					break
+				}
+			}
+			if !matched {
+				fails = append(fails, msg)
+			}
+		}
+	}
+	// de-duplicate known lines
+	res.KnownLines = uniq(res.KnownLines)
+	if len(fails) > 0 {
+		res.Replay = writeHarnessReplay(o, name, strings.Join(uniq(fails), "\n"), string(out))
+		return res
+	}
+	if runErr != nil && len(res.KnownLines) == 0 || !sawCases {
+		// the harness itself failed to build or run: the bounded stand-in could not be executed
+		if !sawCases || !strings.Contains(string(out), "VERIF-DONE") {
+			res.Replay = writeHarnessReplay(o, name, "harness did not complete: "+fmt.Sprint(runErr), string(out))
+			return res
+		}
+	}
+	res.OK = true
+	return res
+}
+
+func goCacheDir() string {
+	if d := os.Getenv("GOCACHE"); d != "" {
+		return d
+	}
+	out, err := exec.Command("go", "env", "GOCACHE").Output()
+	if err == nil {
+		return strings.TrimSpace(string(out))
+	}
+	return filepath.Join(os.TempDir(), "gocache")
+}
+
+func uniq(xs []string) []string {
+	seen := map[string]bool{}
+	var out []string
+	for _, x := range xs {
+		if !seen[x] {
+			seen[x] = true
+			out = append(out, x)
+		}
+	}
+	return out
+}
+
+func writeHarnessReplay(o *runOpts, name, what, output string) string {
+	dir := filepath.Join(o.verif, "replays", orDefault(o.property, "adhoc"))
+	os.MkdirAll(dir, 0o755)
+	path := filepath.Join(dir, "harness-"+sanitize(name)+".json")
+	b, _ := json.MarshalIndent(map[string]any{"property": o.property, "bounded_stand_in": name, "failures": what,
+		"how_to_rerun": "bin/gvc check --property " + o.property + "  (the harness under /verif/harness/" + name + " is injected with go test -overlay)",
+		"output": truncate(output, 20000)}, "", " ")
+	os.WriteFile(path, b, 0o644)
+	return path
 }
